@@ -452,3 +452,49 @@ Section Prune.
   Lemma rounds_head k X Y Xv : exists l, rounds k X Y Xv = prune_fit ltb zero top w X Y Xv :: l.
   Proof. destruct k; cbn [prune_rounds]; eexists; reflexivity. Qed.
 End Prune.
+
+(* ------------------------------------------------------------------------------------ *)
+(* a rank map exists for every accuracy domain whose [>] is a strict weak order on the   *)
+(* accuracies of the run (rationals, non-NaN binary64 values, ...)                        *)
+
+Section RankGen.
+  Context {A : Type}.
+  Variable gt : A -> A -> bool.            (* gt a b  =  "a > b" *)
+  Variable l : list A.
+
+  Definition weak_order_on : Prop :=
+    (forall a, In a l -> gt a a = false) /\
+    (forall a b c, In a l -> In b l -> In c l -> gt a b = true -> gt b c = true -> gt a c = true) /\
+    (forall a b c, In a l -> In b l -> In c l -> gt a b = false -> gt b c = false -> gt a c = false).
+
+  (* number of listed values strictly below a *)
+  Definition grank (a : A) : Z := Z.of_nat (length (filter (fun c => gt a c) l)).
+
+  Lemma grank_lt : weak_order_on -> forall a b, In a l -> In b l -> Z.ltb (grank b) (grank a) = gt a b.
+  Proof.
+    intros (Hirr & Htr & Hneg) a b Ha Hb. unfold grank. destruct (gt a b) eqn:E.
+    - apply Z.ltb_lt. apply Nat2Z.inj_lt. apply (filter_length_lt _ _ l b); auto.
+      intros x Hx Hbx. apply (Htr a b x); auto.
+    - apply Z.ltb_ge. apply Nat2Z.inj_le. apply filter_length_le.
+      intros x Hx Hax. destruct (gt b x) eqn:Ebx; [reflexivity|].
+      rewrite (Hneg a b x Ha Hb Hx E Ebx) in Hax. discriminate.
+  Qed.
+End RankGen.
+
+Section RefineWeak.
+  Context {W A : Type}.
+  Variable ltb : W -> W -> bool.
+  Variables zero top : W.
+  Variable w : nat -> nat -> W.
+  Variable ao : acc_ops A.
+
+  Theorem learn_full_refines_weak_order n draws st :
+    let r := learn_full ltb zero top w ao n draws st in
+    let accs := map (@fi_acc W A) (fr_trace r) in
+    weak_order_on (ao_gt ao) accs ->
+    fr_res r = learn (map (enc_iter (grank (ao_gt ao) accs)) (fr_trace r)) n draws st.
+  Proof.
+    intros r accs Hwo. apply learn_full_refines_gen.
+    intros it it' Hi Hi'. apply grank_lt; [exact Hwo | |]; unfold accs; now apply in_map.
+  Qed.
+End RefineWeak.
